@@ -177,6 +177,10 @@ def oracle_tokens(ops):
                 exp.append("qh=%d" % s.check(h))
                 if h in members[k]:
                     must.append(idx)
+        elif o == "x":
+            slots[k] = None
+            members[k] = set()
+            exp.append("x")
         elif o == "m":
             src = int(f[2])
             if slots[src] is None:
@@ -328,6 +332,58 @@ def gen_scenario(tier, rng):
     return ops
 
 
+def gen_history(tier, rng):
+    """Several filter LIFETIMES in one process (the writer's one-filter-per-row-group pattern): create, insert a
+    run of values, check, destroy, create the next filter of the SAME size (the allocator hands out the same
+    addresses again), whose first insertion equals the last insertion of its predecessor; the successor may also
+    come from a reload or from raw bytes.  Interleaved insertions of one value into two live filters.  Any state
+    the library keeps across filters (caches keyed by address, statics) shows up as a false negative or as bits
+    that differ from the Parquet algorithm."""
+    ops = []
+    k = rng.randrange(4)
+    size = rng.choice([1, 32, 64, 96, 128, 1000])
+    nb = 32 * size_to_blocks(size)
+    pool = [rand_value(rng) for _ in range(rng.randrange(2, 6))]
+    hpool = [rand_hash(rng) for _ in range(2)]
+    last = None
+    for life in range(rng.randrange(3, 7)):
+        how = rng.random()
+        if life == 0 or how < 0.7:
+            ops.append("c:%d:%x" % (k, max(0, nb - rng.randrange(0, 32))))
+        elif how < 0.85:
+            ops.append("rb:%d:%s" % (k, "00" * nb))
+        else:
+            other = (k + 1) % 4
+            ops += ["c:%d:%x" % (other, nb), "r:%d:%d" % (k, other), "x:%d" % other]
+        seq = []
+        if last is not None and rng.random() < 0.85:
+            seq.append(last)                              # the run of equal values straddles the boundary
+        for _ in range(rng.randrange(0, 5)):
+            v = rng.choice(pool) if rng.random() < 0.8 else ("h", rng.choice(hpool))
+            seq += [v] * rng.choice([1, 1, 2, 3])         # runs inside one filter
+        if not seq:
+            seq.append(rng.choice(pool))
+        for v in seq:
+            ops.append("ih:%d:%016x" % (k, v[1]) if v[0] == "h" else "i:%d:%s:%s" % (k, v[0], hexs(v[1])))
+        for v in dict.fromkeys(seq):
+            ops.append("qh:%d:%016x" % (k, v[1]) if v[0] == "h" else "q:%d:%s:%s" % (k, v[0], hexs(v[1])))
+        ops.append("d:%d" % k)
+        last = seq[-1]
+        if rng.random() < 0.9:
+            ops.append("x:%d" % k)
+    # two live filters, the same value alternately
+    a, b = 0, 1
+    ops += ["c:%d:%x" % (a, nb), "c:%d:%x" % (b, nb)]
+    for _ in range(rng.randrange(2, 6)):
+        v = rng.choice(pool)
+        order = [a, b] if rng.random() < 0.5 else [b, a, b]
+        for kk in order:
+            ops.append("i:%d:%s:%s" % (kk, v[0], hexs(v[1])))
+        ops += ["q:%d:%s:%s" % (kk, v[0], hexs(v[1])) for kk in (a, b)]
+    ops += ["d:%d" % a, "d:%d" % b]
+    return ops
+
+
 def gen_ndv(tier, rng):
     """create_with_ndv is not modelled (libm); the implementation alone is checked against the
     property's size rule and the no-false-negative rule."""
@@ -374,11 +430,32 @@ def check_xxh(rep, tier, rng, drv, run):
             rep.tie_broken(f"extracted Xxh64Model and extracted Xxh64Spec differ: {b}", li)
         elif at[:2] != bt[:2]:
             rep.tie_broken(f"Xxh64Model differs from carquet_xxhash64: model {b} / impl {a}", li)
+    # lengths of 2^32 bytes and more ("every input length"): size_t vs 32-bit arithmetic in the length handling.
+    # Optimised build, sparse anonymous mapping, libxxhash streaming API in 1 GiB pieces as the reference.
+    try:
+        pdrv = build_driver("h_util", flavour="plain", libs=["-lxxhash"])
+        sizes = [(1 << 32) - 1, 1 << 32, (1 << 32) + 13] + ([(1 << 33) + 5] if tier == "thorough" else [])
+        blines = ["xxhbig %d %x" % (n, rng.choice([0, 1, M64, rng.getrandbits(64)])) for n in sizes]
+        bout, bp = run_sharded(pdrv, blines, shards=len(blines), timeout=900)
+        for pr in bp:
+            rep.tie_broken(f"xxhbig could not run (rc={pr[1]}): {pr[2][-200:]}", pr[3])
+        for li, o in zip(blines, bout):
+            rep.count(li)
+            t = o.split()
+            if o.startswith("FAULT"):
+                continue
+            if len(t) != 3 or t[0] != "OK":
+                rep.tie_broken(f"xxhbig could not run: {o[:200]}", li)
+            elif t[1] != t[2]:
+                rep.violation(f"carquet_xxhash64 of a {li.split()[1]}-byte buffer differs from libxxhash XXH64 (streaming): {o}",
+                              {"case": li, "impl": o, "flavour": "plain"})
+    except vlib.BuildError as e:
+        rep.tie_broken("plain-flavour harness does not build: " + str(e)[:300])
     rep.sample({"op": "xxh", "align": cases[130][1], "seed": "%x" % cases[130][2], "bytes": hexs(cases[130][3])})
     return len(cases)
 
 
-def judge_scenario(rep, line, ops, a, b=None):
+def judge_scenario(rep, line, ops, a, b=None, flavour=None):
     """Compare one scenario's implementation output [a] with the oracles (and the model output [b])."""
     exp, must = oracle_tokens(ops)
     at = a.split()
@@ -391,14 +468,14 @@ def judge_scenario(rep, line, ops, a, b=None):
     for i in must:
         if got[i] not in ("q=1", "qh=1"):
             rep.violation(f"false negative: op #{i} '{ops[i]}' asks for a value inserted earlier and gets {got[i]}",
-                          {"case": line, "op_index": i, "impl": a[:2000]})
+                          dict({"case": line, "op_index": i, "impl": a[:2000]}, **({"flavour": flavour} if flavour else {})))
             ok = False
             break
     # (2) the Parquet algorithm predicts every token (sizes, bits, answers, status classes)
     for i, (g, e) in enumerate(zip(got, exp)):
         if g != e:
             rep.violation(f"op #{i} '{ops[i]}': implementation gives {g[:160]}, the Parquet split-block algorithm "
-                          f"(independent transcription) gives {e[:160]}", {"case": line, "op_index": i, "impl": a[:2000]})
+                          f"(independent transcription) gives {e[:160]}", dict({"case": line, "op_index": i, "impl": a[:2000]}, **({"flavour": flavour} if flavour else {})))
             ok = False
             break
     if b is not None:
@@ -427,6 +504,9 @@ def corpus_lines():
 def check_bloom(rep, tier, rng, drv, run):
     nsc = 20000 if tier == "thorough" else 1400
     scen = [l.split()[1:] for l in corpus_lines() if l.startswith("bloom ")]
+    nhist = 1500 if tier == "thorough" else 250
+    hist = [gen_history(tier, rng) for _ in range(nhist)]
+    scen += hist
     scen += [gen_scenario(tier, rng) for _ in range(nsc)]
     lines = ["bloom " + " ".join(ops) for ops in scen]
     impl, p1 = run_sharded(drv, lines)
@@ -446,6 +526,25 @@ def check_bloom(rep, tier, rng, drv, run):
             continue                      # shard died: reported above with the case it died on
         judge_scenario(rep, li, ops, a, None if b.startswith("FAULT") else b)
     rep.sample({"op": "bloom", "scenario": lines[len(lines) // 2][:600]})
+    # The sanitizer build never reuses a freed address (ASan quarantine).  The lifetime histories and a slice of the
+    # random scenarios therefore also run against the optimised build with the system allocator, few shards, so that
+    # each process sees long sequences of create/destroy with address reuse.
+    try:
+        pdrv = build_driver("h_util", flavour="plain", libs=["-lxxhash"])
+        pscen = hist + scen[len(scen) - (nsc // 4):]
+        plines = ["bloom " + " ".join(ops) for ops in pscen]
+        pout, pp = run_sharded(pdrv, plines, shards=4)
+        for pr in pp:
+            rep.violation(f"optimised-build driver died in a Bloom scenario (rc={pr[1]}): {pr[2][-500:]}",
+                          {"case": pr[3], "flavour": "plain"})
+        for ops, li, a in zip(pscen, plines, pout):
+            rep.count("plain " + li, nontrivial=True)
+            if not a.startswith("FAULT"):
+                judge_scenario(rep, li, ops, a, None, flavour="plain")
+        dist["lifetime_histories"] = len(hist)
+        dist["scenarios_on_optimised_build"] = len(plines)
+    except vlib.BuildError as e:
+        rep.tie_broken("plain-flavour harness does not build: " + str(e)[:300])
     rep.cov["input_distribution"] = dist
     # create_with_ndv, implementation only
     nd = gen_ndv(tier, rng)
@@ -538,8 +637,14 @@ def replay(path):
     if not case:
         print(json.dumps(j, indent=1))
         return 1
-    drv = build_driver("h_util", libs=["-lxxhash"])
-    out, rc, err = vlib.run_lines(drv, [case])
+    flav = j.get("replay", {}).get("flavour") or "san"
+    drv = build_driver("h_util", flavour=flav, libs=["-lxxhash"])
+    if flav == "plain" and case.startswith("bloom "):
+        # address reuse depends on the allocator's history: replay the scenario several times in one process
+        out, rc, err = vlib.run_lines(drv, [case] * 3, timeout=900)
+        out = [o for o in out if o != out[0]][:1] or out[:1]
+    else:
+        out, rc, err = vlib.run_lines(drv, [case], timeout=900)
     print("case:", case[:3000])
     print("implementation:", [o[:3000] for o in out], "rc", rc)
     if err:
@@ -549,7 +654,7 @@ def replay(path):
     t = out[0].split()
     if case.startswith("bloomnull "):
         return 0 if out[0].endswith("m=err m2=err fresh=0") and "=0 " not in out[0].split(" data=")[0] else 1
-    if case.startswith("xxh "):
+    if case.startswith("xxh ") or case.startswith("xxhbig "):
         return 1 if (len(t) != 3 or t[0] != "OK" or t[1] != t[2]) else 0
     ops = case.split()[1:]
     if ops and ops[0].startswith("cn:"):
